@@ -467,6 +467,7 @@ type vsLineage struct {
 	marks      int
 	failMarkAt int
 	hw         uint64 // highest index this lineage has handled (or loaded)
+	skew       bool   // a compaction-shaped snapshot was installed (see sameAs)
 
 	lastRes     map[uint64]fsm.ApplyResult
 	completed   map[uint64]int
@@ -580,7 +581,7 @@ func (l *vsLineage) observe(ctx context.Context, index uint64) {
 		l.hw = index
 	}
 	snap := l.sm.Snapshot(ctx)
-	if got := vsCanon(snap); got != l.w.canonAt[l.hw] {
+	if got := vsCanon(snap); !l.sameAs(snap, l.hw) {
 		want := l.w.stateAt[l.hw]
 		l.r.FailSig("state_diverged", l.name, fmt.Sprintf("%s: after handling entries up to %d the state is rev=%d applied=%d sum=%s; one-at-a-time application had rev=%d applied=%d sum=%s",
 			l.name, l.hw, snap.Revision, snap.AppliedRaftIndex, snap.Checksum, want.Revision, want.AppliedRaftIndex, want.Checksum),
@@ -771,14 +772,24 @@ func (l *vsLineage) run() {
 					return
 				}
 				l.applied, l.hw = 0, 0
+				m := src.AppliedRaftIndex
+				if uint64(k) > m && t.Intn(2) == 1 {
+					// the shape Service.compactLogAt produces: the published state
+					// (checksum already filled in for the old content) gets its applied
+					// index advanced over the non-command entries raft has applied since,
+					// and is encoded as it is
+					src.AppliedRaftIndex = uint64(k)
+					m = uint64(k)
+					l.skew = true
+					r.Probe("snapshot_install.compaction_shape")
+				}
 				data, err := state.Encode(src)
 				if err != nil {
 					r.Fail("published_invalid", fmt.Sprintf("state at %d cannot be encoded for a snapshot: %v", k, err), nil)
 					return
 				}
 				l.newScheduler()
-				m := src.AppliedRaftIndex
-				r.Logf("%s restart#%d snapshot_install of state@%d (index %d)", l.name, l.restarts, k, m)
+				r.Logf("%s restart#%d snapshot_install of state@%d (index %d, compaction shape %v)", l.name, l.restarts, k, m, l.skew)
 				if err := l.sched.applyJob(ctx, toApply{snapshot: raftpb.Snapshot{Data: data, Metadata: raftpb.SnapshotMetadata{Index: m, Term: 1}}}); err != nil {
 					r.FailSig("apply_error", l.name, fmt.Sprintf("%s: snapshot install failed: %v", l.name, err), nil)
 					return
@@ -796,7 +807,7 @@ func (l *vsLineage) run() {
 		replayFrom := applied + 1
 		if snap.Revision != 0 {
 			a := snap.AppliedRaftIndex
-			if a > n || vsCanon(snap) != l.w.canonAt[a] {
+			if a > n || !l.sameAs(snap, a) {
 				r.FailSig("restart_state_not_a_prefix", l.name, fmt.Sprintf("%s: state loaded after %s has rev=%d applied=%d and is not the state after entry %d", l.name, kind, snap.Revision, a, a), nil)
 				return
 			}
@@ -824,7 +835,7 @@ func (l *vsLineage) run() {
 	}
 	// ---- end of log: final state, final file, completions ------------------------------
 	final := l.sm.Snapshot(ctx)
-	if vsCanon(final) != l.w.canonAt[n] {
+	if !l.sameAs(final, n) {
 		r.FailSig("state_diverged", l.name, fmt.Sprintf("%s: final state rev=%d applied=%d differs from one-at-a-time rev=%d applied=%d", l.name, final.Revision, final.AppliedRaftIndex, l.w.stateAt[n].Revision, l.w.stateAt[n].AppliedRaftIndex), nil)
 		return
 	}
@@ -858,6 +869,22 @@ func (l *vsLineage) run() {
 		r.ProbeN("transitions", len(all))
 	}
 	r.ProbeN("restarts", l.restarts)
+}
+
+// sameAs reports whether snap is the reference state after entry i. Once this
+// lineage has installed a compaction-shaped snapshot (applied index advanced
+// over non-command entries, as Service.compactLogAt does) the applied index may
+// sit anywhere between the reference's and i until the next command is applied;
+// everything else must still be identical (the checksum is validated separately).
+func (l *vsLineage) sameAs(snap state.ClusterState, i uint64) bool {
+	if vsCanon(snap) == l.w.canonAt[i] {
+		return true
+	}
+	if !l.skew {
+		return false
+	}
+	ref := l.w.stateAt[i]
+	return vsLogical(snap, false) == vsLogical(ref, false) && snap.AppliedRaftIndex >= ref.AppliedRaftIndex && snap.AppliedRaftIndex <= i
 }
 
 func (l *vsLineage) hasCommandBetween(a, b uint64) bool {
